@@ -149,6 +149,17 @@ fn step_case(ctx: &mut Ctx, raw: &[isize], operands3: &[Vec<isize>], operands2: 
         let g = ctx.guard(|| letters(&a.inverse()));
         expect(ctx, &case, "inverse", g, &inv(&start), w);
     }
+    if want("index") {
+        ctx.ops(1);
+        match ctx.guard(|| (0..a.len()).map(|i| a[i]).collect::<Vec<isize>>()) {
+            Ok(v) => {
+                if v != start {
+                    ctx.violation("wrong-value", json!({"layer": "step", "start": raw, "action": "index"}), format!("letters by index = {:?}, expected {:?}", v, start), w);
+                }
+            }
+            Err(m) => ctx.violation("panic", json!({"layer": "step", "start": raw, "action": "index"}), m, w),
+        }
+    }
     if want("len") {
         ctx.ops(1);
         if a.len() != start.len() {
